@@ -24,8 +24,6 @@ func c14Pool() []pureProg {
 			"switch x {\ncase 1:\n\tprint(\"one\")\ndefault:\n\tprint(\"other\")\n}\nfor k, v := range s {\n\tprint(k, v)\n}\nfor x > 100 {\n\tx--\n}\nt := \"ab\" + itoa(x)\nt += \"c\"\nprint(t[0], t[1:2], len(t), t == \"q\")\nvar u bool\nu = !u && (x >= y || x != y)\n" +
 			"write(\"f.txt\", t)\nwrite(\"f.txt\", t, true)\nprint(exists(\"f.txt\"), read(\"f.txt\"), u)\nin := input(\"p \")\n@ls(\"-l\")\no, e, c := @ls(in) | @grep(\"x\")\nprint(o, e, c)\n" +
 			"func swap(a int, b int) (int, int) {\n\ta, b = b, a\n\treturn a, b\n}\nx, y = swap(x, y)\np, q := swap(y, x)\nprint(p, q)\nif x == 12345 {\n\tpanic(\"boom\")\n}\n"}},
-		{name: "helpers", main: "main.tsh", files: map[string]string{"main.tsh": "a := []int{" + m(0) + "}\na[2] = 5\nb := []int{}\nn := copy(b, a)\ns := \"hello\"\nprint(n, len(a), s[1:3], s[0])\nfunc unused() int {\n\treturn 1\n}\nfunc a2(p int) int {\n\treturn p\n}\nprint(a2(" + m(1) + "))\n"}},
-		{name: "same-names", main: "main.tsh", files: map[string]string{"main.tsh": "func a(p int) int {\n\treturn p + 1\n}\nfunc unused() int {\n\treturn a(1)\n}\nfunc a2(p int) int {\n\treturn p\n}\nprint(unused(), " + m(0) + ")\n"}},
 		{name: "two-imports", main: "main.tsh", files: map[string]string{
 			"main.tsh":  "import (\n\th \"lib/h.tsh\"\n\tk \"lib/k.tsh\"\n)\nprint(h.Hello(" + m(0) + "), k.Twice(" + m(1) + "))\n",
 			"lib/h.tsh": "func helper(a int) int {\n\treturn a + 1\n}\nfunc Hello(a int) int {\n\treturn helper(a)\n}\nfunc Other() int {\n\treturn 3\n}\nprint(\"lib h loaded\", helper(1))\n",
@@ -37,6 +35,8 @@ func c14Pool() []pureProg {
 			"lib/h.tsh": "func helper(a int) int {\n\treturn a + 100\n}\nfunc Hello(a int) int {\n\treturn helper(a) - 1\n}\nprint(\"lib h edited\", helper(2))\n",
 			"lib/k.tsh": "func Twice(a int) int {\n\treturn a * 2\n}\nfunc Thrice(a int) int {\n\treturn a * 3\n}\n",
 		}},
+		{name: "helpers", main: "main.tsh", files: map[string]string{"main.tsh": "a := []int{" + m(0) + "}\na[2] = 5\nb := []int{}\nn := copy(b, a)\ns := \"hello\"\nprint(n, len(a), s[1:3], s[0])\nfunc unused() int {\n\treturn 1\n}\nfunc a2(p int) int {\n\treturn p\n}\nprint(a2(" + m(1) + "))\n"}},
+		{name: "same-names", main: "main.tsh", files: map[string]string{"main.tsh": "func a(p int) int {\n\treturn p + 1\n}\nfunc unused() int {\n\treturn a(1)\n}\nfunc a2(p int) int {\n\treturn p\n}\nprint(unused(), " + m(0) + ")\n"}},
 		{name: "std-and-local", main: "main.tsh", files: map[string]string{
 			"main.tsh": "import (\n\t\"strings\"\n\tu \"u.tsh\"\n)\nprint(strings.Contains(\"abc\", \"b\"), u.Id(" + m(0) + "))\n",
 			"u.tsh":    "print(\"u loaded\")\nfunc Id(a int) int {\n\treturn a\n}\n",
@@ -109,7 +109,11 @@ func CheckC14(r *Run) int {
 		var hist []call
 		var hs []string
 		for i := 0; i < k; i++ {
-			cl := call{c.Choose("prog", 0, len(pool)-1), targets[c.Choose("target", 0, 1)]}
+			np := len(pool)
+			if k >= 3 {
+				np = 3 // histories of three calls: the first three programs (all statement forms, a tree with imports, the same tree edited in place)
+			}
+			cl := call{c.Choose("prog", 0, np-1), targets[c.Choose("target", 0, 1)]}
 			hist = append(hist, cl)
 			hs = append(hs, pool[cl.p].name+"->"+cl.target)
 		}
@@ -228,7 +232,7 @@ func CheckC14(r *Run) int {
 			bads = append(bads, o)
 		}
 	}})
-	r.Absorb("H_C14_histories", st, fmt.Sprintf("histories of 1..%d Transpile calls on one transpiler object over %d programs x 2 targets, 3 directory spellings, every permutation of every map range (<=3 entries; identity/reverse/rotation above), integer literals symbolic", maxK, len(pool)))
+	r.Absorb("H_C14_histories", st, fmt.Sprintf("histories of 1..%d Transpile calls on one transpiler object over %d programs x 2 targets (histories of three calls: the first 3 programs), 3 directory spellings, every permutation of every map range (<=3 entries; identity/reverse/rotation above), integer literals symbolic", maxK, len(pool)))
 	// native confirmation: repetition, relocation and fresh processes on the real build
 	validated := 0
 	for _, p := range pool {
